@@ -1,0 +1,7 @@
+//go:build verif
+
+package NoKV
+
+// VerifSetThrottle toggles the DB-level write throttle exactly as the LSM's L0
+// backlog callback does (lsm.throttleWrites -> DB.applyThrottle).
+func (db *DB) VerifSetThrottle(on bool) { db.applyThrottle(on) }
